@@ -9,7 +9,8 @@ import GoframeModel.Spec.Invalid
 namespace Goframe.C20
 open Goframe Frame
 
-def Good (p : Pool) : Prop := ∀ f ∈ p, f.Rect ∧ f.Sorted
+/-- rectangular, distinct sorted keys, and fewer than 2^62 rows (Go slices cannot be longer) -/
+def Good (p : Pool) : Prop := ∀ f ∈ p, f.Rect ∧ f.Sorted ∧ (f.nrows : Int) < 2 ^ 62
 
 /-- public API operations (direct cell assignment `Columns[k].Data[i] = v` is not an API call) -/
 def IsApi : Op → Prop
